@@ -251,6 +251,8 @@ def replay_unique(data):
 
 
 REPLAY = {"cell": replay_cell, "unique": replay_unique}
+from . import c03 as _c03r   # noqa: E402  (slab layout is C03's lemma; its counterexamples keep their replay)
+REPLAY.update({"slab": _c03r.replay_slab, "radius": _c03r.replay_radius})
 
 
 # -------------------------------------------------------------------------------------- stubs
@@ -712,4 +714,6 @@ def run(ctx):
     for sizes, nops in fams:
         for rev in (False, True):
             sections.append(("unique %s x%d %s" % (sizes, nops, rev), uniq_section(sizes, nops, rev)))
+    from . import c03 as _c03
+    sections += _c03.dependency_sections({"slab"})
     ctx.parallel_sections(sections, nproc=16)
